@@ -35,7 +35,7 @@ Free(s) == \A c \in Clients : s[c] = "up" => reading[c]
 \* gone is only predicted when the proviso holds before the step: a packet of a connection whose
 \* processor is parked on somebody's full ring is not even looked at
 Log(a, c, gone) == /\ steps' = steps + 1
-                   /\ hist' = Append(hist, [a |-> a, c |-> c, gone |-> (gone /\ Free(st)), free |-> (Free(st) /\ Free(st')), cross |-> Cross, selfsub |-> SelfSub])
+                   /\ hist' = Append(hist, [a |-> a, c |-> c, gone |-> (gone /\ Free(st)), free |-> Free(st'), cross |-> Cross, selfsub |-> SelfSub])
 
 \* a burst of big QoS 0 publishes (more than the subscriber's ring holds)
 Burst(c) == /\ c \in {"P", "S"} /\ st[c] = "up" /\ (c = "S" => Cross) /\ ~closedSrv
